@@ -52,8 +52,12 @@ func Perturb(vec []int) (uninstall func() map[string]int) {
 // runtime.NumGoroutine before the call under test), so that workers the code under test
 // leaves behind (IndexFromFile only signals its chunk workers to stop) cannot wander into
 // the hook of the next run. Returns false if that did not happen within 5 s.
-func Quiesce(base int) bool {
-	deadline := time.Now().Add(5 * time.Second)
+func Quiesce(base int) bool { return QuiesceFor(base, 5*time.Second) }
+
+// QuiesceFor is Quiesce with a caller-chosen patience (for code paths that are known to
+// leave goroutines behind for good, e.g. workers abandoned on an error return).
+func QuiesceFor(base int, patience time.Duration) bool {
+	deadline := time.Now().Add(patience)
 	for i := 0; runtime.NumGoroutine() > base; i++ {
 		if time.Now().After(deadline) {
 			return false
